@@ -103,8 +103,15 @@ structure Pending where
   finalized : Bool := false
   havoc : List Nat := []
 
+/-- number of pool slots a history may use -/
+def nSlots : Nat := 32
+
+/-- the pool is kept as a table and handed to `Spec.step` as the function it denotes -/
+def asPool (a : Array Obs) : Spec.Pool Obs := fun i => a.getD i Obs.unknown
+def tabulate (p : Spec.Pool Obs) : Array Obs := (Array.range nSlots).map p
+
 structure St where
-  pool : Spec.Pool Obs := fun _ => Obs.unknown
+  tab : Array Obs := Array.replicate nSlots Obs.unknown
   pend : Option Pending := none
   nOk : Nat := 0
   nBad : Nat := 0
@@ -149,7 +156,7 @@ def finalize : M Unit := do
   | some p =>
     if !p.finalized then
       let (s, hv) := specStep p
-      set { st with pool := Spec.step st.pool s, pend := some { p with finalized := true, havoc := hv } }
+      set { st with tab := tabulate (Spec.step (asPool st.tab) s), pend := some { p with finalized := true, havoc := hv } }
   | none => pure ()
 
 def obligation (p : Pending) (slot : Nat) : String :=
@@ -168,7 +175,7 @@ def short (ts : List String) : String := " ".intercalate (ts.take 60)
 def processLine (ln : Nat) (line : String) : M Unit := do
   let ts := (line.trimAscii.toString.splitOn " ").filter (· ≠ "")
   match ts with
-  | "hist" :: _ => set { (← get) with pool := (fun _ => Obs.unknown), pend := none }
+  | "hist" :: _ => set { (← get) with tab := Array.replicate nSlots Obs.unknown, pend := none }
   | "step" :: kind :: name :: rest => do
     finalize
     let nm := [name]
@@ -199,7 +206,7 @@ def processLine (ln : Nat) (line : String) : M Unit := do
     match st.pend with
     | some p =>
       let o := parseObs v
-      let cur := st.pool (Lin.tokNat slot)
+      let cur := asPool st.tab (Lin.tokNat slot)
       if cur.v.size + o.v.size > st.maxSize && cur.raw != o.raw then skip ln "size"
       else if obsEq cur o then ok ln
       else bad ln "const_arg_copy" s!"step {p.name}: the copy of argument {slot} changed: was {short cur.raw} now {short v}"
@@ -220,20 +227,20 @@ def processLine (ln : Nat) (line : String) : M Unit := do
     | some p =>
       let sl := Lin.tokNat slot
       let o := parseObs v
-      let cur := st.pool sl
+      let cur := asPool st.tab sl
       if p.havoc.contains sl then
-        set { st with pool := Spec.upd st.pool sl o }
+        set { st with tab := tabulate (Spec.upd (asPool st.tab) sl o) }
         skip ln "unspecified"
       else
         match o.v with
         | .unknown => bad ln "parse" s!"slot {slot}: {short v}"
         | _ =>
           if cur.v.size + o.v.size > st.maxSize && cur.raw != o.raw then
-            set { st with pool := Spec.upd st.pool sl o }
+            set { st with tab := tabulate (Spec.upd (asPool st.tab) sl o) }
             skip ln "size"
           else if obsEq cur o then ok ln
           else
-            set { st with pool := Spec.upd st.pool sl o }
+            set { st with tab := tabulate (Spec.upd (asPool st.tab) sl o) }
             bad ln (obligation p sl) s!"step {p.kind} {p.name} dsts={p.dsts} args={p.args} slot {slot}: specification {short cur.raw} | observed {short v}"
     | none => skip ln "no-step"
   | "crash" :: sig => do
